@@ -34,8 +34,8 @@ RULE = ("(a) CarvedRecord.__init__ called directly on generated arguments (every
         "carve.journal. (b) oracle: no exception escapes; for every carved cell the bytes of the source file at "
         "cell.file_offset are the serial types of the matched columns followed by bodies that decode (format spec) to the "
         "reported values; the bytes lie in the unallocated area / a freeblock of that page in that version (independent "
-        "page reader) or on a freelist page, never inside a live cell; no record identity (page, in-page offset, bytes) is "
-        "reported in two commits. non-trivial = distinct region/record cases in which at least one cell was carved, "
+        "page reader) or on a freelist page, never inside a live cell; no residue (page, in-page offset, the record's bytes "
+        "as far as the free region holds them) is reported in two commits. non-trivial = distinct region/record cases in which at least one cell was carved, "
         "distinct carved cells of real files")
 ASSUMPTIONS = [
     "md5 is collision-free on the byte strings hashed: the model carries a digest as the hashed bytes",
@@ -43,7 +43,7 @@ ASSUMPTIONS = [
     "the Signature object handed to the carver is the one C10 is about; the carving model takes number_of_columns, total_records, the simplified / recommended / simplified-probabilistic signatures as input",
     "probabilities are compared as exact fractions (float(n)/d with one denominator per column)",
     "serial types are below 2^56 and content sizes below 2^53 (the float returned by get_content_size for blobs is exact)",
-    "data objects are bytes when read from a file and bytearray() when a region is empty, as Page.unallocated_space / Freeblock.content produce them",
+    "the Python type of the data object (bytes, or bytearray() for an empty region) no longer decides anything after fix 4d9b308 / 0b2b453 and is not part of the model's input; the generators still pass both",
 ]
 TRUSTED_EXTRA = ["Python re for the emitted regex fragment", "harness/props/carvecommon.py page_layout / get_varint / decode_body: independent reader written from the file-format document"]
 
@@ -309,7 +309,7 @@ def record_correspondence(ctx, n):
         loc, data, ba, s, e, cutoff, fc, fbs, ps = record_case(r, sig)
         out = run_record(sig, loc, data, s, e, cutoff, fc, fbs, ps)
         fcs = "none" if fc is None else ("e" if not fc else ",".join(map(str, fc)))
-        line = (f"carve.record {K.sig_tokens(sig)} {loc} {K.b01(ba)} {ps} {s} {e} {cutoff} {fcs} "
+        line = (f"carve.record {K.sig_tokens(sig)} {loc} {ps} {s} {e} {cutoff} {fcs} "
                 f"{fbs if fbs is not None else '-'} {hx(data)}")
         cases.append((line, out))
         ctx.branch(f"record:{loc}:s{min(s, 2)}:{'partial' if fc is not None else 'full'}")
@@ -349,7 +349,7 @@ def region_correspondence(ctx, n):
         if loc == "freeblock" and fb is None:
             fb = len(data) + 4
         out, cells, exc = K.run_region(sig, loc, ps, po, start, data, fb)
-        line = K.region_line(sig, loc, isinstance(data, bytearray), ps, po, start, fb, data)
+        line = K.region_line(sig, loc, ps, po, start, fb, data)
         cases.append((line, out))
         ctx.branch(f"region:{loc}:{'norows' if not sig.simplified_signature else 'rows'}:"
                    f"{'1col' if len(eff_cols(sig)) == 1 else 'ncol'}")
@@ -360,7 +360,9 @@ def region_correspondence(ctx, n):
 def replay_region(ctx, line):
     """re-run one carve.region line on the implementation, the model and the oracle"""
     t = line.split(" ")
-    nc, tot, simp, rec, prob, loc, ba, ps, po, start, fbs, hexd = t[1:13]
+    if len(t) == 13:                 # a line recorded before the bytes/bytearray flag was dropped
+        t = t[:7] + t[8:]
+    nc, tot, simp, rec, prob, loc, ps, po, start, fbs, hexd = t[1:12]
 
     def cols(s):
         return [] if s == "-" else [[int(x) for x in c.split(",")] if c != "e" else [] for c in s.split(";")]
@@ -380,10 +382,10 @@ def replay_region(ctx, line):
     sig = K.StubSig(cols(simp), nc=int(nc), total=int(tot), recommended=cols(rec), prob=probs)
     sig._denoms = denoms
     raw = b"" if hexd == "-" else bytes.fromhex(hexd)
-    data = bytearray(raw) if ba == "1" else raw
+    data = raw if raw else bytearray()
     fb = None if fbs == "-" else int(fbs)
     out, cells, exc = K.run_region(sig, loc, int(ps), int(po), int(start), data, fb)
-    line2 = K.region_line(sig, loc, ba == "1", int(ps), int(po), int(start), fb, data)
+    line2 = K.region_line(sig, loc, int(ps), int(po), int(start), fb, data)
     K.differential(ctx, [(line2, out)], "carve.region", nontrivial=lambda l, o: o.startswith("ok f"))
     region_oracle(ctx, sig, loc, int(ps), int(po), int(start), data, fb, cells, exc, line2)
 
@@ -496,8 +498,15 @@ def cell_oracle(ctx, files, k, c, case, seen=None, table_pages=None):
         ctx.oracle_fail("not-free", "the bytes of a carved record are neither in the unallocated area nor in one freeblock of the page",
                         dict(desc, record=(a, b), unalloc=ua, freeblocks=lay["freeblocks"][:8]), (a, b), "free bytes")
     if seen is not None:
-        n = b - a
-        ident = (c.page_number, a, bytes(page[a:b]))
+        # the residue: the record's serial types and as much of its bodies as the free region it lies in still holds
+        # (independent page layout); when less of a truncated record is left in a later version it is another residue
+        region_end = ua[1] if ua[0] <= a <= ua[1] else b
+        for (fs, fz) in lay["freeblocks"]:
+            if fs <= a <= fs + fz:
+                region_end = fs + fz
+        total = a + (c.payload.serial_type_definition_end_offset - c.payload.serial_type_definition_start_offset) \
+            + sum(int(col.content_size) for col in c.payload.record_columns)
+        ident = (c.page_number, a, bytes(page[a:max(b, min(total, region_end))]))
         if ident in seen and seen[ident] != k:
             ctx.oracle_fail("re-reported", "the same record (page, in-page offset, bytes) is reported in two commits",
                             dict(desc, first_version=seen[ident]), k, seen[ident])
@@ -768,35 +777,6 @@ def _exc(f):
     return (f.get("case") or {}).get("exc") or {}
 
 
-def _m_none_compare(f):
-    x = _exc(f)
-    return (f.get("kind") == "carving-raised" and x.get("class") == "TypeError" and "NoneType" in x.get("msg", "")
-            and ">=" in x.get("msg", "") and x.get("where", "").endswith("carve_unallocated_space"))
-
-
-def _m_str_bytes(f):
-    x = _exc(f)
-    return (f.get("kind") == "carving-raised" and x.get("class") == "TypeError"
-            and "can only concatenate str" in x.get("msg", "") and x.get("where", "").startswith("carving/carved_cell.py"))
-
-
-def _m_bytearray_encode(f):
-    x = _exc(f)
-    return (f.get("kind") == "carving-raised" and x.get("class") == "AttributeError"
-            and "'bytearray' object has no attribute 'encode'" in x.get("msg", ""))
-
-
-def _m_unpack_errobj(f):
-    x = _exc(f)
-    return (f.get("kind") == "carving-raised" and x.get("class") == "TypeError"
-            and "InvalidVarIntError" in x.get("msg", "") and x.get("where", "").startswith("carving/carved_cell.py"))
-
-
-def _m_fb_offset(f):
-    c = f.get("case") or {}
-    return f.get("kind") == "not-backed" and c.get("loc") == "freeblock" and c.get("backed_at_plus4") is True
-
-
 def _m_ord_empty(f):
     x = _exc(f)
     c = f.get("case") or {}
@@ -805,25 +785,8 @@ def _m_ord_empty(f):
             and x.get("where", "").endswith("decode_varint") and bool(single))
 
 
-def _m_rereported(f):
-    c = f.get("case") or {}
-    return f.get("kind") == "re-reported" and "first_version" in c
-
-
-def _m_journal_eof(f):
-    c = f.get("case") or {}
-    x = _exc(f)
-    return (f.get("kind") == "carving-raised" and c.get("entry") == "journal" and x.get("class") == "EOFError"
-            and c.get("page_records") in (0, 1, 0.0, 1.0))
-
-
+# the matchers of C08-01..06 and C08-08 are gone with the fix: commits 6eca1fa 0b2b453 1323ad4 4d9b308 1c3b10a
+# 0d6a473 56bb962; their minimal inputs stay in corpus/C08 so that a regression is reported as a VIOLATION
 MATCHERS = {
-    "c08_int_ge_none": _m_none_compare,
-    "c08_str_plus_bytes": _m_str_bytes,
-    "c08_bytearray_encode": _m_bytearray_encode,
-    "c08_unpack_error_object": _m_unpack_errobj,
-    "c08_freeblock_offset_4_early": _m_fb_offset,
-    "c08_journal_single_record_eof": _m_journal_eof,
     "c08_ord_empty_single_column": _m_ord_empty,
-    "c08_rereported_same_bytes": _m_rereported,
 }
